@@ -20,18 +20,33 @@ Lemma code_shape :
   fl_core_tokens_code_pattern = mkFlags true false.
 Proof. split; reflexivity. Qed.
 
+Lemma eat_run : forall (r : str) s rest, aft s = r ++ rest -> eat r s = Some (adv_run s r rest).
+Proof.
+  induction r as [|c r IH]; intros s rest Ha.
+  - cbn [app] in Ha. cbn [eat]. rewrite <- Ha, adv_run_nil. reflexivity.
+  - cbn [app] in Ha. cbn [eat]. rewrite Ha, Z.eqb_refl. rewrite (IH (advance s c (r ++ rest)) rest eq_refl). rewrite adv_run_cons. reflexivity.
+Qed.
+
+Lemma rev_repeat_z (x : Z) n : rev (repeat x n) = repeat x n.
+Proof.
+  induction n as [|n IH]; [reflexivity|]. cbn [repeat rev]. rewrite IH. clear IH.
+  induction n as [|n IH]; [reflexivity|]. cbn [repeat app]. rewrite IH. reflexivity.
+Qed.
+
 Section CodeMatch.
   Let fl := mkFlags true false.
-  Variables (pre code post : str).
+  Variables (pre code post : str) (n : nat).      (* the span is delimited by n + 1 backticks *)
   Hypothesis Hprev : match rev pre with [] => True | x :: _ => x <> 92 /\ x <> 96 end.
   Hypothesis Hne : code <> [].
   Hypothesis Hcode : mem 96 code = false.
   Hypothesis Hpost : hd 0 post <> 96.
 
   Let a := slen pre.
-  Definition cs0 : mst := mkMst (rev pre) (96 :: code ++ 96 :: post) a [].
+  Let bq := repeat 96 (S n).
+  Let N := Z.of_nat (S n).
+  Definition cs0 : mst := mkMst (rev pre) (bq ++ code ++ bq ++ post) a [].
   Definition cs_end : mst :=
-    mkMst (96 :: rev code ++ 96 :: rev pre) post (a + 1 + slen code + 1) [(2%nat, (a + 1, a + 1 + slen code)); (1%nat, (a, a + 1))].
+    mkMst (rev bq ++ rev code ++ rev bq ++ rev pre) post (a + N + slen code + N) [(2%nat, (a + N, a + N + slen code)); (1%nat, (a, a + N))].
 
   Lemma code_hd : exists c t, code = c :: t /\ (c =? 96) = false.
   Proof.
@@ -46,14 +61,28 @@ Section CodeMatch.
   Lemma all_any (l : str) : forallb (char_ok fl Any) l = true.
   Proof. induction l as [|c l IH]; [reflexivity|]. cbn [forallb char_ok dotall fl orb]. exact IH. Qed.
 
+  Lemma bq_len : slen bq = N.  Proof. unfold bq, N, slen. rewrite repeat_length. reflexivity. Qed.
+
+  (* the text of the first group, seen from a state j characters into the content *)
+  Lemma seg_open (s' : mst) (X : str) : bef s' = rev X ++ rev bq ++ rev pre -> pos s' = a + N + slen X ->
+    segment s' a (a + N) = bq.
+  Proof.
+    intros Hb Hp. unfold segment. rewrite Hp, Hb.
+    replace (a + N + slen X - a) with (Z.of_nat (length (rev X ++ rev bq))) by (rewrite app_length, !rev_length; unfold bq, N, slen; rewrite repeat_length; lia).
+    rewrite Nat2Z.id. rewrite app_assoc. rewrite firstn_app, Nat.sub_diag, firstn_all. cbn [firstn]. rewrite app_nil_r.
+    rewrite rev_app_distr, !rev_involutive.
+    replace (a + N - a) with (Z.of_nat (length bq)) by (unfold bq, N; rewrite repeat_length; lia).
+    rewrite Nat2Z.id, firstn_app, Nat.sub_diag, firstn_all. cbn [firstn]. apply app_nil_r.
+  Qed.
+
   (* the tail  (?<!`) \1 (?!`)  after j characters of the content: fails inside the content, succeeds at its end *)
   Lemma tail_inside (k : mst -> option mst) j (s1 : mst) : (j < length code)%nat ->
-    bef s1 = 96 :: rev pre -> aft s1 = code ++ 96 :: post -> pos s1 = a + 1 -> grp s1 = [(1%nat, (a, a + 1))] ->
-    m fl CODE_TAIL (set_grp 2 (a + 1) (pos (adv_run s1 (firstn j code) (skipn j code ++ 96 :: post))) (adv_run s1 (firstn j code) (skipn j code ++ 96 :: post))) k = None.
+    bef s1 = rev bq ++ rev pre -> aft s1 = code ++ bq ++ post -> pos s1 = a + N -> grp s1 = [(1%nat, (a, a + N))] ->
+    m fl CODE_TAIL (set_grp 2 (a + N) (pos (adv_run s1 (firstn j code) (skipn j code ++ bq ++ post))) (adv_run s1 (firstn j code) (skipn j code ++ bq ++ post))) k = None.
   Proof.
     intros Hj Hb Ha Hp Hg.
-    set (s2 := adv_run s1 (firstn j code) (skipn j code ++ 96 :: post)).
-    set (s3 := set_grp 2 (a + 1) (pos s2) s2).
+    set (s2 := adv_run s1 (firstn j code) (skipn j code ++ bq ++ post)).
+    set (s3 := set_grp 2 (a + N) (pos s2) s2).
     unfold CODE_TAIL. rewrite m_seq.
     (* whatever the look-behind says, the back-reference fails: the next character is not a backtick *)
     assert (Hnext : exists c t, skipn j code = c :: t /\ (96 =? c) = false).
@@ -65,13 +94,11 @@ Section CodeMatch.
     destruct Hnext as (c & t & Esk & Hc).
     assert (Bf : forall s', bef s' = bef s3 -> aft s' = aft s3 -> pos s' = pos s3 -> grp s' = grp s3 -> m fl (Seq (Bref 1) (Look true true 0 BQ)) s' k = None).
     { intros s' B1 B2 B3 B4. rewrite m_seq. cbn [m]. rewrite B4. unfold s3, s2, set_grp, adv_run. cbn [grp lookup_grp Nat.eqb]. rewrite Hg. cbn [lookup_grp Nat.eqb].
-      assert (Eseg : segment s' a (a + 1) = [96]).
-      { unfold segment. rewrite B3, B1. unfold s3, s2, set_grp, adv_run. cbn [pos bef]. rewrite Hp, Hb.
-        replace (a + 1 + slen (firstn j code) - a) with (Z.of_nat (S (length (firstn j code)))) by (unfold slen; lia).
-        replace (a + 1 - a) with 1 by lia. rewrite Nat2Z.id.
-        rewrite firstn_app. rewrite rev_length. replace (S (length (firstn j code)) - length (firstn j code))%nat with 1%nat by lia.
-        rewrite (firstn_all2 (rev (firstn j code))) by (rewrite rev_length; lia). cbn [firstn]. rewrite rev_app_distr, rev_involutive. cbn [rev app Z.to_nat Pos.to_nat Pos.iter_op Nat.add firstn]. reflexivity. }
-      rewrite Eseg. cbn [eat]. rewrite B2. unfold s3, s2, set_grp, adv_run. cbn [aft]. rewrite Esk. cbn [app]. rewrite Hc. reflexivity. }
+      assert (Eseg : segment s' a (a + N) = bq).
+      { apply (seg_open s' (firstn j code)).
+        - rewrite B1. unfold s3, s2, set_grp, adv_run. cbn [bef]. rewrite Hb. reflexivity.
+        - rewrite B3. unfold s3, s2, set_grp, adv_run. cbn [pos]. rewrite Hp. reflexivity. }
+      rewrite Eseg. unfold bq. cbn [repeat eat]. rewrite B2. unfold s3, s2, set_grp, adv_run. cbn [aft]. rewrite Esk. cbn [app]. rewrite Hc. reflexivity. }
     cbn [m]. destruct (retreat 1 s3) as [s0'|]; [|apply Bf; reflexivity].
     destruct (m fl BQ s0' (fun s' => if pos s' =? pos s3 then Some s' else None)); [reflexivity|]. apply Bf; reflexivity.
   Qed.
@@ -85,30 +112,33 @@ Section CodeMatch.
   Qed.
 
   Lemma tail_end (k : mst -> option mst) v (s1 : mst) :
-    bef s1 = 96 :: rev pre -> aft s1 = code ++ 96 :: post -> pos s1 = a + 1 -> grp s1 = [(1%nat, (a, a + 1))] ->
+    bef s1 = rev bq ++ rev pre -> aft s1 = code ++ bq ++ post -> pos s1 = a + N -> grp s1 = [(1%nat, (a, a + N))] ->
     k cs_end = Some v ->
-    m fl CODE_TAIL (set_grp 2 (a + 1) (pos (adv_run s1 code (96 :: post))) (adv_run s1 code (96 :: post))) k = Some v.
+    m fl CODE_TAIL (set_grp 2 (a + N) (pos (adv_run s1 code (bq ++ post))) (adv_run s1 code (bq ++ post))) k = Some v.
   Proof.
     intros Hb Ha Hp Hg Hk.
-    set (s3 := set_grp 2 (a + 1) (pos (adv_run s1 code (96 :: post))) (adv_run s1 code (96 :: post))).
-    assert (E3 : s3 = mkMst (rev code ++ 96 :: rev pre) (96 :: post) (a + 1 + slen code) [(2%nat, (a + 1, a + 1 + slen code)); (1%nat, (a, a + 1))]).
+    set (s3 := set_grp 2 (a + N) (pos (adv_run s1 code (bq ++ post))) (adv_run s1 code (bq ++ post))).
+    assert (E3 : s3 = mkMst (rev code ++ rev bq ++ rev pre) (bq ++ post) (a + N + slen code) [(2%nat, (a + N, a + N + slen code)); (1%nat, (a, a + N))]).
     { unfold s3, set_grp, adv_run. cbn [bef aft pos grp]. rewrite Hb, Hp, Hg. reflexivity. }
-    rewrite E3. clear E3 s3.
     destruct code_last as (t & x & Ec & Hx).
     assert (Er : rev code = x :: rev t) by (rewrite Ec, rev_app_distr; reflexivity).
-    rewrite Er. cbn [app].
-    unfold CODE_TAIL, BQ. rewrite m_seq. cbn [m]. cbn [retreat bef aft pos grp]. cbn [char_ok]. rewrite Hx.
-    (* the back-reference *)
-    cbn [lookup_grp Nat.eqb].
-    assert (Eseg : segment (mkMst (x :: rev t ++ 96 :: rev pre) (96 :: post) (a + 1 + slen code) [(2%nat, (a + 1, a + 1 + slen code)); (1%nat, (a, a + 1))]) a (a + 1) = [96]).
-    { unfold segment. cbn [pos bef]. change (x :: rev t ++ 96 :: rev pre) with ((x :: rev t) ++ 96 :: rev pre). rewrite <- Er.
-      replace (a + 1 + slen code - a) with (Z.of_nat (length (rev code ++ [96]))) by (rewrite app_length, rev_length; unfold slen; cbn [length]; lia).
-      rewrite Nat2Z.id. replace (rev code ++ 96 :: rev pre) with ((rev code ++ [96]) ++ rev pre) by (rewrite <- app_assoc; reflexivity).
-      rewrite firstn_app, Nat.sub_diag, firstn_all. cbn [firstn]. rewrite app_nil_r, rev_app_distr, rev_involutive.
-      replace (a + 1 - a) with 1 by lia. reflexivity. }
-    rewrite Eseg. cbn [eat aft]. rewrite Z.eqb_refl. cbn [advance bef aft pos grp char_ok].
-    unfold cs_end in Hk. rewrite Er in Hk.
-    destruct post as [|p0 pt]; [exact Hk|]. cbn [hd] in Hpost. apply Z.eqb_neq in Hpost. rewrite Hpost. exact Hk.
+    unfold CODE_TAIL, BQ. rewrite m_seq.
+    (* (?<!`) : the last character of the content is not a backtick *)
+    assert (L1 : forall k', m fl (Look false true 1 (Lit 96)) s3 k' = k' s3).
+    { intros k'. rewrite E3. cbn [m retreat bef]. rewrite Er. cbn [app aft pos grp char_ok]. rewrite Hx. reflexivity. }
+    rewrite L1. rewrite m_seq.
+    (* the back-reference eats the closing run *)
+    assert (Eseg : segment s3 a (a + N) = bq).
+    { apply (seg_open s3 code); rewrite E3; reflexivity. }
+    assert (L2 : forall k', m fl (Bref 1) s3 k' = k' (adv_run s3 bq post)).
+    { intros k'. cbn [m]. rewrite E3 at 1. cbn [grp lookup_grp Nat.eqb]. rewrite Eseg.
+      rewrite (eat_run bq s3 post) by (rewrite E3; reflexivity). reflexivity. }
+    rewrite L2.
+    (* (?!`) *)
+    assert (Eend : adv_run s3 bq post = cs_end).
+    { rewrite E3. unfold adv_run, cs_end. cbn [bef aft pos grp]. rewrite bq_len. reflexivity. }
+    rewrite Eend. cbn [m]. unfold cs_end at 1. cbn [aft].
+    destruct post as [|p0 pt]; [exact Hk|]. cbn [hd] in Hpost. apply Z.eqb_neq in Hpost. cbn [char_ok]. rewrite Hpost. exact Hk.
   Qed.
 
   (* the whole pattern at the opening backtick *)
@@ -127,24 +157,23 @@ Section CodeMatch.
     (* (?:\\\\)* *)
     rewrite m_seq.
     assert (L2 : forall k', m fl (Rep true 0 None (Seq (Lit 92) (Lit 92))) cs0 k' = k' cs0).
-    { intros k'. cbn [m repeat app]. unfold cs0 at 1. cbn [aft]. cbn [loop Nat.ltb Nat.leb under]. cbn [m]. unfold cs0 at 1. cbn [aft char_ok Z.eqb Pos.eqb orelse]. reflexivity. }
+    { intros k'. cbn [m repeat app]. unfold cs0 at 1. cbn [aft]. cbn [loop Nat.ltb Nat.leb under]. cbn [m]. unfold cs0 at 1. unfold bq. cbn [repeat app aft char_ok Z.eqb Pos.eqb orelse]. reflexivity. }
     rewrite L2.
     (* (`+) *)
     rewrite m_seq, m_grp, m_rep.
-    apply greedy_run with (run := [96]) (rest := code ++ 96 :: post).
+    apply greedy_run with (run := bq) (rest := code ++ bq ++ post).
     - reflexivity.
     - rewrite Ec. cbn [app stops BQ char_ok]. exact Hc.
     - reflexivity.
-    - reflexivity.
-    - cbn [length Nat.add]. lia.
+    - unfold bq. apply forallb_forall. intros x Hx. apply repeat_spec in Hx. subst x. reflexivity.
+    - unfold bq. rewrite repeat_length. lia.
     - intros x Hx. discriminate.
-    - cbn [length repeat app]. lia.
-    -
-      set (s1 := set_grp 1 (pos cs0) (pos (adv_run cs0 [96] (code ++ 96 :: post))) (adv_run cs0 [96] (code ++ 96 :: post))).
-      assert (Hb1 : bef s1 = 96 :: rev pre) by reflexivity.
-      assert (Ha1 : aft s1 = code ++ 96 :: post) by reflexivity.
-      assert (Hp1 : pos s1 = a + 1) by reflexivity.
-      assert (Hg1 : grp s1 = [(1%nat, (a, a + 1))]) by reflexivity.
+    - cbn [length repeat app]. unfold cs0. cbn [aft]. rewrite app_length. lia.
+    - set (s1 := set_grp 1 (pos cs0) (pos (adv_run cs0 bq (code ++ bq ++ post))) (adv_run cs0 bq (code ++ bq ++ post))).
+      assert (Hb1 : bef s1 = rev bq ++ rev pre) by reflexivity.
+      assert (Ha1 : aft s1 = code ++ bq ++ post) by reflexivity.
+      assert (Hp1 : pos s1 = a + N) by (unfold s1, set_grp, adv_run, cs0; cbn [pos]; rewrite bq_len; reflexivity).
+      assert (Hg1 : grp s1 = [(1%nat, (a, a + N))]) by (unfold s1, set_grp, adv_run, cs0; cbn [pos grp]; rewrite bq_len; reflexivity).
       (* (?!`) *)
       rewrite m_seq.
       assert (L3 : forall k', m fl (Look true true 0 BQ) s1 k' = k' s1).
@@ -152,7 +181,7 @@ Section CodeMatch.
       rewrite L3.
       (* (.+?) *)
       rewrite m_seq, m_grp, m_rep.
-      apply (lazy_run fl Any 1 None _ v (96 :: post) eq_refl code s1 0%nat _ tt).
+      apply (lazy_run fl Any 1 None _ v (bq ++ post) eq_refl code s1 0%nat _ tt).
       + exact Ha1.
       + apply all_any.
       + intros x Hx. discriminate.
@@ -232,21 +261,24 @@ Proof.
 Qed.
 
 Section CodeS.
-  Variables (pre code post : str) (fn : footnotes).
+  Variables (pre code post : str) (n : nat) (fn : footnotes).      (* n + 1 backticks on each side *)
   Hypothesis Hpre : plain_text pre = true.
   Hypothesis Hpost : plain_text post = true.
   Hypothesis Hcode : code_text code = true.
   Hypothesis Hne : code <> [].
 
-  Let s := pre ++ [96] ++ code ++ [96] ++ post.
+  Let bq := repeat 96 (S n).
+  Let N := Z.of_nat (S n).
+  Let s := pre ++ bq ++ code ++ bq ++ post.
   Let a := slen pre.
-  Let e := a + 1 + slen code + 1.
+  Let e := a + N + slen code + N.
 
-  Definition c0 : mst := adv_run (mkMst [] s 0 []) pre (96 :: code ++ 96 :: post).
-  Definition c1 : mst := cs_end pre code post.
+  Definition c0 : mst := adv_run (mkMst [] s 0 []) pre (bq ++ code ++ bq ++ post).
+  Definition c1 : mst := cs_end pre code post n.
 
+  Lemma c_bq : slen bq = N.  Proof. unfold bq, N, slen. rewrite repeat_length. reflexivity. Qed.
   Lemma c_len : slen s = e + slen post.
-  Proof. unfold s, e, a. rewrite !slen_app. unfold slen. cbn [length]. lia. Qed.
+  Proof. unfold s, e, a. rewrite !slen_app, c_bq. lia. Qed.
 
   Lemma c_prev : match rev pre with [] => True | x :: _ => x <> 92 /\ x <> 96 end.
   Proof.
@@ -271,21 +303,21 @@ Section CodeS.
   Lemma code_found : code_search s 0 = Some (c0, c1).
   Proof.
     unfold code_search, search, seek. change (take 0 s) with (@nil Z). change (drop 0 s) with s. cbn [rev aft].
-    rewrite (search_skip _ _ pre s (mkMst [] s 0 []) (96 :: code ++ 96 :: post)); [|reflexivity| |unfold s; rewrite app_length; lia].
+    rewrite (search_skip _ _ pre s (mkMst [] s 0 []) (bq ++ code ++ bq ++ post)); [|reflexivity| |unfold s; rewrite app_length; lia].
     2:{ intros c Hc. apply code_nomatch.
         - pose proof (plain_no 92 pre eq_refl Hpre) as T. destruct (c =? 92) eqn:E; [|reflexivity]. apply Z.eqb_eq in E. subst c.
           assert (T' : mem 92 pre = true) by (unfold mem; apply existsb_exists; exists 92; split; [exact Hc|reflexivity]). rewrite T' in T. discriminate.
         - pose proof (plain_no 96 pre eq_refl Hpre) as T. destruct (c =? 96) eqn:E; [|reflexivity]. apply Z.eqb_eq in E. subst c.
           assert (T' : mem 96 pre = true) by (unfold mem; apply existsb_exists; exists 96; split; [exact Hc|reflexivity]). rewrite T' in T. discriminate. }
     fold c0.
-    assert (E0 : mkMst (bef c0) (aft c0) (pos c0) [] = cs0 pre code post).
+    assert (E0 : mkMst (bef c0) (aft c0) (pos c0) [] = cs0 pre code post n).
     { unfold c0, cs0, adv_run. cbn [bef aft pos grp]. rewrite app_nil_r. reflexivity. }
     assert (M : forall b0, m fl_core_tokens_code_pattern re_core_tokens_code_pattern (mkMst (bef c0) (aft c0) (pos c0) [])
                   (fun s' => if b0 && (pos s' =? pos c0) then None else Some s') = Some c1 -> True) by (intros; exact I).
     clear M.
     destruct (skipn (length pre) s) as [|x fuel]; cbn [search_from]; rewrite E0;
       destruct code_shape as [_ ->];
-      rewrite (code_match pre code post c_prev Hne c_code96 c_post96 _ c1) by reflexivity; reflexivity.
+      rewrite (code_match pre code post n c_prev Hne c_code96 c_post96 _ c1) by reflexivity; reflexivity.
   Qed.
 
   Lemma c0_pos : pos c0 = a.  Proof. reflexivity. Qed.
@@ -294,28 +326,28 @@ Section CodeS.
   Lemma code_after : code_search s e = None.
   Proof.
     unfold code_search. apply (search_state_none _ _ 96); [vm_compute; reflexivity|]. unfold seek. cbn [aft].
-    replace s with ((pre ++ [96] ++ code ++ [96]) ++ post) by (unfold s; rewrite <- !app_assoc; reflexivity).
-    replace e with (slen (pre ++ [96] ++ code ++ [96])) by (unfold e, a; rewrite !slen_app; unfold slen; cbn [length]; lia).
+    replace s with ((pre ++ bq ++ code ++ bq) ++ post) by (unfold s; rewrite <- !app_assoc; reflexivity).
+    replace e with (slen (pre ++ bq ++ code ++ bq)) by (unfold e, a; rewrite !slen_app, c_bq; lia).
     rewrite drop_app_len. apply plain_no; [reflexivity|exact Hpost].
   Qed.
 
   Lemma scan_code : scan_loop (S (S (length s))) s fn 0 (Some (c0, c1)) (mkScan [] [] false None false 0 []) = mkScan [] [] false None false 0 [(c0, c1)].
   Proof.
-    assert (El : (S (S (length s)) = length pre + S (length post + S (S (S (length code)))))%nat).
-    { unfold s. rewrite !app_length. cbn [length]. lia. }
+    assert (El : (S (S (length s)) = length pre + S (length post + S (length code + 2 * n + 2)))%nat).
+    { unfold s, bq. rewrite !app_length, !repeat_length. lia. }
     rewrite El.
     set (st0 := mkScan [] [] false None false 0 []).
-    rewrite (scan_plain_seg_cm s fn (Some (c0, c1)) pre _ [] ([96] ++ code ++ [96] ++ post) st0 eq_refl (plain_inert pre Hpre)); [|repeat split|].
+    rewrite (scan_plain_seg_cm s fn (Some (c0, c1)) pre _ [] (bq ++ code ++ bq ++ post) st0 eq_refl (plain_inert pre Hpre)); [|repeat split|].
     2:{ intros j Hj. cbn [not_at]. rewrite c0_pos. unfold a. change (slen []) with 0 in Hj. lia. }
     change (slen [] + slen pre) with a.
     cbn [scan_loop].
-    assert (Hlt : a <? slen s = true) by (apply Z.ltb_lt; rewrite c_len; unfold e, slen; lia).
+    assert (Hlt : a <? slen s = true) by (apply Z.ltb_lt; rewrite c_len; unfold e, N, slen; lia).
     rewrite Hlt. cbn [negb]. rewrite c0_pos, Z.eqb_refl. cbn [st0 sc_run sc_ds sc_ms sc_escaped sc_in_image sc_start sc_code app].
     rewrite c1_pos, code_after.
     set (st2 := mkScan [] [] false None false 0 [(c0, c1)]).
-    replace e with (slen (pre ++ [96] ++ code ++ [96])) by (unfold e, a; rewrite !slen_app; unfold slen; cbn [length]; lia).
-    rewrite (scan_inert_any s fn post _ (pre ++ [96] ++ code ++ [96]) [] st2); [|unfold s; rewrite app_nil_r, <- !app_assoc; reflexivity|exact (plain_inert post Hpost)|repeat split].
-    replace (slen (pre ++ [96] ++ code ++ [96]) + slen post) with (slen s) by (rewrite c_len; unfold e, a; rewrite !slen_app; unfold slen; cbn [length]; lia).
+    replace e with (slen (pre ++ bq ++ code ++ bq)) by (unfold e, a; rewrite !slen_app, c_bq; lia).
+    rewrite (scan_inert_any s fn post _ (pre ++ bq ++ code ++ bq) [] st2); [|unfold s; rewrite app_nil_r, <- !app_assoc; reflexivity|exact (plain_inert post Hpost)|repeat split].
+    replace (slen (pre ++ bq ++ code ++ bq) + slen post) with (slen s) by (rewrite c_len; unfold e, a; rewrite !slen_app, c_bq; lia).
     rewrite scan_end. reflexivity.
   Qed.
 
@@ -336,8 +368,9 @@ Section CodeS.
     { unfold mem, triggers_c, triggers_r in *. cbn [existsb] in *.
       repeat (apply orb_true_iff in Hc; destruct Hc as [Hc|Hc]); try discriminate; rewrite Hc; cbn [orb]; rewrite ?orb_true_r; reflexivity. }
     assert (C96 : (c =? 96) = false) by (destruct (c =? 96) eqn:E; [apply Z.eqb_eq in E; subst c; vm_compute in Hc; discriminate|reflexivity]).
-    unfold s, mem. rewrite !existsb_app. fold (mem c pre). fold (mem c code). fold (mem c post).
-    rewrite (plain_no c pre Ht Hpre), (plain_no c post Ht Hpost), (code_text_no c code Hr Hcode). cbn [existsb orb]. rewrite C96. reflexivity.
+    assert (Cb : mem c bq = false) by (apply mem_repeat; intros ->; vm_compute in C96; discriminate).
+    unfold s, mem. rewrite !existsb_app. fold (mem c pre). fold (mem c code). fold (mem c post). fold (mem c bq).
+    rewrite (plain_no c pre Ht Hpre), (plain_no c post Ht Hpost), (code_text_no c code Hr Hcode), Cb. reflexivity.
   Qed.
 
   Definition is_ci (kd : span_kind) : bool := match kd with SK_CoreTokens | SK_InlineCode => true | _ => false end.
@@ -383,26 +416,23 @@ Section CodeS.
   (* the token: the content between the backticks, one space stripped on each side when both are there *)
   Definition code_tok : tok :=
     let padded := negb (isspace_str code) && startswith [32] code && endswith [32] code in
-    InlineCode (mkCode [96] (if padded then [32] else []) (if padded then removelast (tl code) else code)).
+    InlineCode (mkCode bq (if padded then [32] else []) (if padded then removelast (tl code) else code)).
 
-  Lemma c1_g1 : gtext c1 1 = [96].
+  Lemma c1_g1 : gtext c1 1 = bq.
   Proof.
-    unfold gtext, group_text, c1, cs_end. cbn [grp lookup_grp Nat.eqb]. unfold segment. cbn [pos bef].
-    fold a. replace (a + 1 + slen code + 1 - a) with (Z.of_nat (length (96 :: rev code ++ [96]))) by (cbn [length]; rewrite app_length, rev_length; unfold slen; cbn [length]; lia).
-    rewrite Nat2Z.id. replace (96 :: rev code ++ 96 :: rev pre) with ((96 :: rev code ++ [96]) ++ rev pre) by (cbn [app]; rewrite <- app_assoc; reflexivity).
-    rewrite firstn_app, Nat.sub_diag, firstn_all. cbn [firstn]. rewrite app_nil_r.
-    change (96 :: rev code ++ [96]) with ([96] ++ rev code ++ [96]). rewrite !rev_app_distr, rev_involutive. cbn [rev app].
-    replace (a + 1 - a) with 1 by lia. reflexivity.
+    unfold gtext, group_text, c1, cs_end. cbn [grp lookup_grp Nat.eqb]. fold a. fold N. fold bq.
+    rewrite (seg_open pre n _ (code ++ bq)); [reflexivity| |].
+    - cbn [bef]. rewrite rev_app_distr, <- !app_assoc. reflexivity.
+    - cbn [pos]. rewrite slen_app, c_bq. fold a. fold N. lia.
   Qed.
 
   Lemma c1_g2 : gtext c1 2 = code.
   Proof.
-    unfold gtext, group_text, c1, cs_end. cbn [grp lookup_grp Nat.eqb]. unfold segment. cbn [pos bef].
-    fold a. replace (a + 1 + slen code + 1 - (a + 1)) with (Z.of_nat (length (96 :: rev code))) by (cbn [length]; rewrite rev_length; unfold slen; lia).
-    rewrite Nat2Z.id. replace (96 :: rev code ++ 96 :: rev pre) with ((96 :: rev code) ++ 96 :: rev pre) by reflexivity.
-    rewrite firstn_app, Nat.sub_diag, firstn_all. cbn [firstn]. rewrite app_nil_r.
-    change (96 :: rev code) with ([96] ++ rev code). rewrite rev_app_distr, rev_involutive. cbn [rev app].
-    replace (a + 1 + slen code - (a + 1)) with (Z.of_nat (length code)) by (unfold slen; lia).
+    unfold gtext, group_text, c1, cs_end. cbn [grp lookup_grp Nat.eqb]. unfold segment. cbn [pos bef]. fold a. fold N. fold bq.
+    replace (a + N + slen code + N - (a + N)) with (Z.of_nat (length (rev bq ++ rev code))) by (rewrite app_length, !rev_length; unfold bq, N, slen; rewrite repeat_length; lia).
+    rewrite Nat2Z.id, app_assoc, firstn_app, Nat.sub_diag, firstn_all. cbn [firstn]. rewrite app_nil_r.
+    rewrite rev_app_distr, !rev_involutive.
+    replace (a + N + slen code - (a + N)) with (Z.of_nat (length code)) by (unfold slen; lia).
     rewrite Nat2Z.id, firstn_app, Nat.sub_diag, firstn_all. cbn [firstn]. apply app_nil_r.
   Qed.
 
@@ -418,7 +448,7 @@ Section CodeS.
   Proof.
     intros Hq Hc. unfold tokenize_inner. rewrite (find_all_code _ [] Hq Hc).
     cbn [number_from map fst snd cand_of sk_parse_group grp_span sk_precedence sk_parse_inner].
-    assert (Gs : group_span c1 2 = Some (a + 1, a + 1 + slen code)) by reflexivity.
+    assert (Gs : group_span c1 2 = Some (a + N, a + N + slen code)) by reflexivity.
     rewrite Gs, c0_pos, c1_pos.
     pose proof c_len as Hs.
     unfold tokenize, SpanTokenizer.make_tokens, make_tokens_with.
@@ -430,12 +460,12 @@ Section CodeS.
     rewrite c1_g1, c1_g2. rewrite (replace_none 10 [32] code) by (apply code_text_no; [reflexivity|exact Hcode]).
     fold code_tok. f_equal; [|f_equal].
     - apply raw_gap. cbn [build_otok]. f_equal.
-      pose proof (substr_mid [] pre ([96] ++ code ++ [96] ++ post)) as M. cbn [app] in M. unfold slen at 1 2 in M. cbn [length Z.of_nat] in M.
+      pose proof (substr_mid [] pre (bq ++ code ++ bq ++ post)) as M. cbn [app] in M. unfold slen at 1 2 in M. cbn [length Z.of_nat] in M.
       fold a in M. replace (0 + a) with a in M by lia. unfold s. cbn [app]. rewrite M. apply unescape_plain. exact Hpre.
     - apply raw_gap. cbn [build_otok]. f_equal.
-      pose proof (substr_mid (pre ++ [96] ++ code ++ [96]) post []) as M.
-      replace (slen (pre ++ [96] ++ code ++ [96])) with e in M by (unfold e, a; rewrite !slen_app; unfold slen; cbn [length]; lia).
-      rewrite app_nil_r in M. replace ((pre ++ [96] ++ code ++ [96]) ++ post) with s in M by (unfold s; rewrite <- !app_assoc; reflexivity).
+      pose proof (substr_mid (pre ++ bq ++ code ++ bq) post []) as M.
+      replace (slen (pre ++ bq ++ code ++ bq)) with e in M by (unfold e, a; rewrite !slen_app, c_bq; lia).
+      rewrite app_nil_r in M. replace ((pre ++ bq ++ code ++ bq) ++ post) with s in M by (unfold s; rewrite <- !app_assoc; reflexivity).
       rewrite Hs. rewrite M. apply unescape_plain. exact Hpost.
   Qed.
 End CodeS.
@@ -448,24 +478,26 @@ Definition code_spans (types : list span_kind) : bool :=
 Definition code_ok (pre code post : str) : bool :=
   plain_text pre && plain_text post && code_text code && (match code with [] => false | _ => true end).
 
-Definition code_of (code : str) : tok :=
+(* the span delimited by n + 1 backticks on each side *)
+Definition ticks (n : nat) : str := repeat 96 (S n).
+Definition code_of (n : nat) (code : str) : tok :=
   let padded := negb (isspace_str code) && startswith [32] code && endswith [32] code in
-  InlineCode (mkCode [96] (if padded then [32] else []) (if padded then removelast (tl code) else code)).
+  InlineCode (mkCode (ticks n) (if padded then [32] else []) (if padded then removelast (tl code) else code)).
 
-Theorem code_in_sentence types fn pre code post :
+Theorem code_in_sentence types fn n pre code post :
   code_spans types = true -> code_ok pre code post = true ->
-  tokenize_inner types fn (pre ++ [96] ++ code ++ [96] ++ post) = raw_if pre ++ [code_of code] ++ raw_if post.
+  tokenize_inner types fn (pre ++ ticks n ++ code ++ ticks n ++ post) = raw_if pre ++ [code_of n code] ++ raw_if post.
 Proof.
   intros Hs Ho. unfold code_spans in Hs. apply andb_true_iff in Hs as [Hq Hc].
   unfold code_ok in Ho. repeat rewrite andb_true_iff in Ho. destruct Ho as [[[H1 H2] H3] H4].
-  apply (tokenize_inner_code pre code post fn H1 H2 H3); [destruct code; [discriminate|discriminate]|exact Hq|].
+  apply (tokenize_inner_code pre code post n fn H1 H2 H3); [destruct code; [discriminate|discriminate]|exact Hq|].
   destruct (filter _ _) as [|[] [|[] [|? ?]]]; try discriminate. reflexivity.
 Qed.
 
 (* the content of a code span may hold every delimiter of the core tokens: it stays text *)
 Example code_span_instance :
   (code_ok ($"call ") ($"f(a, *b, **c)[0] _x_ ![i](u)") ($" now.") = true) /\
-  (code_of ($" x ") = InlineCode (mkCode [96] [32] ($"x"))) /\ (code_of ($"  ") = InlineCode (mkCode [96] [] ($"  "))) /\
+  (code_of 0 ($" x ") = InlineCode (mkCode [96] [32] ($"x"))) /\ (code_of 1 ($"  ") = InlineCode (mkCode [96; 96] [] ($"  "))) /\
   (code_ok [] ($"a`b") [] = false) /\ (code_ok [] [] [] = false) /\ (code_ok [] ($"a<b") [] = false).
 Proof. vm_compute. repeat split; reflexivity. Qed.
 
@@ -477,7 +509,7 @@ Proof. vm_compute. reflexivity. Qed.
 (* the two attributes of the token, by name *)
 Definition code_padded (code : str) : bool := negb (isspace_str code) && startswith [32] code && endswith [32] code.
 Definition code_content (code : str) : str := if code_padded code then removelast (tl code) else code.
-Lemma code_of_eq code : code_of code = InlineCode (mkCode [96] (if code_padded code then [32] else []) (code_content code)).
+Lemma code_of_eq n code : code_of n code = InlineCode (mkCode (ticks n) (if code_padded code then [32] else []) (code_content code)).
 Proof. reflexivity. Qed.
 
 (* padding and content together are the text between the backticks *)
